@@ -234,7 +234,21 @@ func RunPipeline(seed int64, tier, driver, outDir string, n int, search bool, co
 			res.Failures = append(res.Failures, core.FailRec{Prop: "C17", Msg: fs[0] + " [" + line + "]", File: file})
 		}
 	}
-	res.Extra = map[string]any{"batch_order_scenarios": nbo, "records": recs, "queries": qs, "queries_with_hits": qhits, "query_errors": qerrs, "cases_rotated_at_max": rotated, "backend_queries_compared": bkq, "stores_reopened_after_sync": reopBy}
+	nsd, sdSeen := 12, false
+	if tier == "thorough" {
+		nsd = 150
+	}
+	for i := 0; i < nsd; i++ {
+		fs, line := SharedDbScenario(seed*100207 + int64(i))
+		res.Evaluations++
+		if len(fs) > 0 && !sdSeen {
+			sdSeen = true
+			file := filepath.Join(outDir, fmt.Sprintf("C17-seed%d-shareddb.bcase", seed))
+			os.WriteFile(file, []byte("# "+fs[0]+"\n"+line+"\n"), 0o644)
+			res.Failures = append(res.Failures, core.FailRec{Prop: "C17", Msg: fs[0] + " [" + line + "]", File: file})
+		}
+	}
+	res.Extra = map[string]any{"shared_db_scenarios": nsd, "batch_order_scenarios": nbo, "records": recs, "queries": qs, "queries_with_hits": qhits, "query_errors": qerrs, "cases_rotated_at_max": rotated, "backend_queries_compared": bkq, "stores_reopened_after_sync": reopBy}
 	res.WallS = time.Since(t0).Seconds()
 	return res
 }
